@@ -5,5 +5,6 @@ CONSTANTS
   Ops = {100, 400}
   Shared = {0, 3}
   MixNames = {"create", "log", "balanced"}
+  Closers = {TRUE, FALSE}
 INVARIANT Emit
 CHECK_DEADLOCK FALSE
